@@ -70,6 +70,7 @@ def start_state(real, rng):
 import z3
 from vf.pyvc.speclib import SpecLib
 from vf.pyvc.world import World, Contract
+from vf.pyvc.interp import LoopSpec
 from vf.pyvc.values import VObj, VBox, VSeq, VInt, VRef, VArr, NONE, fresh, fresh_name, lift, sort_of
 from vf.pyvc.driver import verify_contracts
 
@@ -365,6 +366,25 @@ class OSOrderAfter(OSOrderBefore):
          "forall(i, %s + 1, %s.n, %s == %s)" % (A, L, VAL, OLDV.format(i="i"))))
 
 
+class OSExtend(OSContract):
+    """extend(iterable): afterwards every given item is a member, earlier members stay, and the old items keep their places"""
+    target = UT + ":OrderedSet.extend"
+    ensures = OS_INV + ("forall(j, 0, len(iterable), iterable[j] in %s)" % T,
+                        "forall_any(s, implies(old(s in %s), s in %s))" % (T, T),
+                        "%s.n >= old(%s.n)" % (L, L),
+                        "forall(i, 0, old(%s.n), %s == %s)" % (L, VAL, OLDV.format(i="i")))
+    loops = {0: LoopSpec(invariants=OS_INV + ("0 <= xi and xi <= len(iterable)",
+                                              "forall(j, 0, xi, iterable[j] in %s)" % T,
+                                              "forall_any(s, implies(old(s in %s), s in %s))" % (T, T),
+                                              "%s.n >= old(%s.n)" % (L, L),
+                                              "forall(i, 0, old(%s.n), %s == %s)" % (L, VAL, OLDV.format(i="i"))),
+                         index="xi", var_types={"item": ITEM},
+                         modifies=OS_MOD)}
+
+    def setup(self, ex):
+        return {"self": _os(ex), "iterable": fresh(("list", ITEM), "iterable")}
+
+
 def build_world_os():
     w = build_world_ll()
     for cls in (LLAppend, LLInsertNodeBefore, LLInsertNodeAfter, LLRemoveNode, LLInsertAtHead, LLInsertBefore, LLInsertAfter,
@@ -396,6 +416,11 @@ def run_deductive(ctx):
     w2 = build_world_os()
     verify_contracts(ctx, w2, [OSContains(), OSLen(), OSAdd(), OSRemove(), OSOrderLast(), OSOrderFirst(), OSOrderBefore(),
                                OSOrderAfter()], {})
+    w3 = build_world_os()
+    add = OSAdd()
+    add.modular = True
+    w3.add_contract(add)
+    verify_contracts(ctx, w3, [OSExtend()], {})
     ctx.assumptions.append("the items of OrderedSet / LinkedList are modelled as opaque values with == and hashing only (mathematical "
                            "integers): the containers are generic in the item type")
     ctx.assumptions.append("weak references are dereferenced as the object itself: referents are assumed to be alive (nodes are "
@@ -543,11 +568,11 @@ def run(ctx):
                        "operation (append, insert_at_head, insert_before/after, insert_node_before/after, remove_node, pop, __len__, "
                        "__bool__) preserves the doubly-linked-list invariant and changes the abstract sequence exactly as a list "
                        "insert / delete at the stated index, leaving all other node values alone; every OrderedSet operation (add, "
-                       "remove, __contains__, __len__, order_first / order_last / order_before / order_after with _reorder inlined) "
+                       "remove, extend, __contains__, __len__, order_first / order_last / order_before / order_after with _reorder inlined) "
                        "preserves 'table and list hold the same items, each once' and realises the reference list model: membership "
                        "unchanged by re-ordering, the item moved to the stated place, every other item keeping its relative order; "
                        "KeyError / ValueError exactly in the stated cases with nothing modified. NOT proved: the iteration "
-                       "generators, OrderedSet.extend, and the Deb822Dict layer on top (case-insensitive key objects, value "
+                       "generators and the Deb822Dict layer on top (case-insensitive key objects, value "
                        "dictionary, sort_fields, copy) - BOUNDED part: operation histories on real Deb822 mappings against a "
                        "reference list model.")
 
